@@ -352,6 +352,8 @@ PrecommitNeedsPolka(signed, seen) ==
   \A k \in 1..Len(signed) :
      (signed[k].o = "vote" /\ signed[k].type = PrecommitT /\ signed[k].bid # NilB)
         => Polka(seen, signed[k].h, signed[k].r, signed[k].bid)
+\* (The property says "prevotes no other block"; agreement needs - and doPrevote gives - more: it does not prevote
+\* nil either while locked, otherwise the locked validators' own nil prevotes would unlock them, see KardiaBFT.)
 \* after precommitting b at r, a prevote for anything else at r2 > r needs a +2/3 prevote set for a
 \* different value in a round in (r, r2]
 LockRespected(signed, seen, blocks) ==
@@ -359,7 +361,7 @@ LockRespected(signed, seen, blocks) ==
      (/\ k1 < k2 /\ signed[k1].o = "vote" /\ signed[k2].o = "vote"
       /\ signed[k1].type = PrecommitT /\ signed[k1].bid # NilB
       /\ signed[k2].type = PrevoteT /\ signed[k2].h = signed[k1].h /\ signed[k2].r > signed[k1].r
-      /\ signed[k2].bid # signed[k1].bid /\ signed[k2].bid # NilB)
+      /\ signed[k2].bid # signed[k1].bid)      \* anything else - NIL INCLUDED: a locked validator prevotes its block
      => \E r3 \in (signed[k1].r + 1)..signed[k2].r, w \in (blocks \cup {NilB}) \ {signed[k1].bid} :
            Polka(seen, signed[k1].h, r3, w)
 \* only valid blocks are voted for
